@@ -29,7 +29,7 @@ def main():
         i = argv.index('--tier')
         tier = argv[i + 1]
         del argv[i:i + 2]
-    src_dir, dest = argv[0], argv[1]
+    src_dir, dest = os.path.abspath(argv[0]), argv[1]
     meta = json.load(open(os.path.join(src_dir, 'meta.json')))
     prop = meta.get('property', dest[:3])
     if not checks:
@@ -76,7 +76,8 @@ def main():
             out = os.path.join('/verif/seeded', dest)
             os.makedirs(out, exist_ok=True)
             for name in ('patch.diff', 'demo.py'):
-                shutil.copy(os.path.join(src_dir, name), os.path.join(out, name))
+                if os.path.abspath(os.path.join(src_dir, name)) != os.path.abspath(os.path.join(out, name)):
+                    shutil.copy(os.path.join(src_dir, name), os.path.join(out, name))
             if result.get('rebased_patch'):
                 with open(os.path.join(out, 'patch.diff'), 'w') as fh:
                     fh.write(result['rebased_patch'])
